@@ -14,6 +14,13 @@ Memory clause, small scope, reads: while streaming, no single read() from the FA
 buffer_size residues (line terminators not counted): reading every whole line a span touches holds more than a
 buffer of one sequence as soon as lines are longer than the buffer.
 
+Memory clause, small scope, writes: what is handed to the output in ONE write() is in memory at that moment, so no
+single write() may carry more than buffer_size residues of one fragment or gap (header lines and line ends are not
+residues; a line that happens to be put together from several short rows is not judged, only what it holds of any one
+row): a consumer that collects chunks - a whole output line, a whole row, a block of its own size - before it writes
+holds more than a buffer of one fragment as soon as line / row / block are longer than the buffer.  Checked on every
+(file, assembly, buffer size) of the independence cases, for line lengths below, at and far above the buffer sizes.
+
 State across calls: ONE FastaIndex object used for a script of several calls - several FastaStreams with
 different gap characters and line lengths, different assemblies, the buffer_size attribute changed between
 calls, in different orders (all ordered pairs of a pool of (buffer, gap character) settings on a designed file
@@ -28,7 +35,10 @@ long gap (each hundreds of buffers), for EVERY public route that is given a buff
     files older than the FASTA file, FastaIndex(path, b).run_indexing(), and auto_load() from up-to-date caches;
   - FastaStream over the index objects those routes leave behind (the derived assembly = long forward fragments
     and the long gap; a long reverse fragment), and over an index handed to FastaIndex(path, b) directly (long
-    forward fragment, long reverse fragment, long gap), into a sink that only hashes;
+    forward fragment, long reverse fragment, long gap), into a sink that only hashes; the same three kinds of row
+    and a scaffold of all three with OUTPUT lines far longer than the buffer (line_length = a few, tens, hundreds of
+    buffers and 10**9 = unwrapped output: "however long" a line is asked for, it is no allowance for the consumer);
+    the sink also notes the largest single write();
   - thorough tier: the pretext-to-asm command (it has NO buffer option - checked in --help - so the bound is the
     documented default of 250 000) on a chromosome 34 default buffers long, FASTA in, FASTA out, no caches.
 The files include UNWRAPPED / long-line FASTA (whole record on one line, or lines tens of buffers long): the
@@ -122,7 +132,60 @@ def spy_on_reads(fi, log):
     fi.__dict__["fasta_fileandle"] = ReadSpy(fi.fasta_file.open("rb"), log)
 
 
-def stream_bytes(path, bs, idx, scaffolds, line_length, audit=None, reads=None):
+class WriteSpy(io.BytesIO):
+    """output that notes the size of every write()"""
+
+    def __init__(self, sizes):
+        super().__init__()
+        self._sizes = sizes
+
+    def write(self, b):
+        self._sizes.append(len(b))
+        return super().write(b)
+
+
+def worst_write(data, sizes, scaffolds, bs):
+    """
+    the write() that carried most residues of ONE row, if that is more than bs: (residues of the row, row spec, bytes
+    of the write) or None.  data = everything written, sizes = length of each write in order, scaffolds = what was
+    streamed [(name, specs)].  Header lines (from '>' at the start of a line) and line ends are not residues.
+    """
+    if not sizes or max(sizes) <= bs:
+        return None
+    # bodies of the records: [start, end) of the bytes behind each header line
+    bodies = []
+    p = 0 if data[:1] == b">" else data.find(b"\n>") + 1
+    while 0 <= p < len(data) and data[p : p + 1] == b">":
+        he = data.find(b"\n", p)
+        he = len(data) if he < 0 else he + 1
+        nxt = data.find(b"\n>", he - 1)
+        end = len(data) if nxt < 0 else nxt + 1
+        bodies.append((he, end))
+        p = end
+    worst = None
+    o = 0
+    for size in sizes:
+        a, b = o, o + size
+        o = b
+        if size <= bs:
+            continue
+        for (he, end), (_, specs) in zip(bodies, scaffolds):
+            lo, hi = max(a, he), min(b, end)
+            if lo >= hi:
+                continue
+            r0 = (lo - he) - data.count(b"\n", he, lo)
+            r1 = r0 + (hi - lo) - data.count(b"\n", lo, hi)
+            at = 0
+            for spec in specs:
+                ln = spec_len(spec)
+                held = min(r1, at + ln) - max(r0, at)
+                if held > bs and (worst is None or held > worst[0]):
+                    worst = (held, spec, size)
+                at += ln
+    return worst
+
+
+def stream_bytes(path, bs, idx, scaffolds, line_length, audit=None, reads=None, writes=None):
     fi = FastaIndex(path, bs)
     fi.index = idx
     if reads is not None:
@@ -135,7 +198,7 @@ def stream_bytes(path, bs, idx, scaffolds, line_length, audit=None, reads=None):
             return real(info, start, end)
 
         fi.sequence_bytes = spy
-    out = io.BytesIO()
+    out = io.BytesIO() if writes is None else WriteSpy(writes)
     try:
         FastaStream(out, fi, line_length=line_length).write_assembly(
             Assembly("a", scaffolds=[scaffold_from(n, specs) for n, specs in scaffolds])
@@ -200,8 +263,9 @@ def check_file(case, path, buffers, assemblies, line_length):
             for bs in buffers:
                 audit = []
                 reads = []
+                writes = []
                 try:
-                    outs[bs] = stream_bytes(path, bs, idx_ref, scs, line_length, audit, reads)
+                    outs[bs] = stream_bytes(path, bs, idx_ref, scs, line_length, audit, reads, writes)
                 except Exception as e:  # noqa: BLE001
                     problems.append((f"streaming '{label}' with buffer {bs} raised {e!r}", {"buffer": bs, "assembly": scs}))
                     continue
@@ -212,6 +276,13 @@ def check_file(case, path, buffers, assemblies, line_length):
                     problems.append((f"streaming '{label}' with buffer {bs} requested {max(audit)} residues of one sequence at once", {"buffer": bs, "assembly": scs}))
                 if reads and max(reads) > bs:
                     problems.append((f"streaming '{label}' with buffer {bs}: one read() from the FASTA file returned {max(reads)} residues of a sequence (line width {case.width}): more than buffer-size residues held at once", {"buffer": bs, "assembly": scs}))
+                held = worst_write(outs[bs], writes, scs, bs)
+                if held:
+                    problems.append((
+                        f"streaming '{label}' with buffer {bs}, line length {line_length}: one write() to the output ({held[2]} bytes) carried {held[0]} residues of the row "
+                        f"{held[1][:5]}: the consumer collects more than buffer-size residues of one fragment or gap before it writes them",
+                        {"buffer": bs, "assembly": scs},
+                    ))
                 try:
                     worst = chunk_sizes(path, bs, idx_ref, scs)
                 except Exception as e:  # noqa: BLE001
@@ -360,6 +431,7 @@ def random_script(case, assemblies, buffers, rng, n_steps):
 # resource check
 
 KIB = 1024
+ONE_LINE = 10**9  # as line width of a file / output line length: everything on one line
 DEFAULT_BUFFER = 250_000  # documented default of FastaIndex / index_fasta_file, the only size the CLI can use
 _MASK = bytes(b if b in G.ACGT else 78 for b in range(256))  # every non-ACGT symbol -> N
 _COMP = bytes(G.COMPLEMENT)
@@ -371,10 +443,17 @@ class HashSink:
     def __init__(self):
         self.h = hashlib.sha256()
         self.n = 0
+        self.most = 0  # most residues in one write() (header line and line ends not counted)
 
     def write(self, b):
         self.h.update(b)
         self.n += len(b)
+        if len(b) > self.most:
+            body = b = bytes(b)
+            if b[:1] == b">":
+                cut = b.find(b"\n")
+                body = b[cut + 1 :] if cut >= 0 else b""
+            self.most = max(self.most, len(body) - body.count(b"\n"))
         return len(b)
 
 
@@ -446,12 +525,23 @@ def index_rows(idx):
     return tuple((n, i.length, i.file_offset, i.residues_per_line, i.max_line_length) for n, i in idx.items())
 
 
-def memory_check(d, bs, n_buffers, width, seed, eol=b"\n"):
+def long_output_lines(bs, n_buffers, quick):
+    """output line lengths far above the buffer (and above the memory allowance), up to unwrapped output"""
+    n = bs * n_buffers
+    some = 4 * memory_limit(bs) + 13
+    if quick:
+        return [ONE_LINE] if n_buffers % 100 else [min(some, n // 2)]
+    return sorted({min(some, n // 2), n // 3 + 1, 3 * n + 100, ONE_LINE})
+
+
+def memory_check(d, bs, n_buffers, width, seed, eol=b"\n", line_lengths=(), all_rows=True):
     """
     every public route that is given a buffer size, with a small buffer on a record / fragment / gap n_buffers
     buffers long -> (messages, measured peaks).  The same routes with a buffer larger than everything are
     measured too ("large buffer: ..."): those peaks are not judged, they show that the measurement sees a whole
     record when one is held (see discrimination()).
+    line_lengths: further OUTPUT line lengths (the routes above write lines of 60) for the streaming routes of part 3;
+    all_rows: each kind of row on its own as well as the scaffold of all three.
     """
     msgs = []
     n = bs * n_buffers + 17
@@ -460,7 +550,7 @@ def memory_check(d, bs, n_buffers, width, seed, eol=b"\n"):
     case = G.FastaCase([G.Rec("short", b"ACGTNNAC"), G.Rec("long", seq), G.Rec("gappy", gappy)], width, eol, True)
     big = max(DEFAULT_BUFFER, len(seq), len(gappy)) + 1000
     nominal_width, width = width, min(width, max(len(seq), len(gappy)))  # longest line actually in the file
-    layout = f"line {width}" + (" = whole record on one line" if nominal_width >= max(len(seq), len(gappy)) else "")
+    layout = f"FASTA file lines of {width}" + (" = whole record on one line" if nominal_width >= max(len(seq), len(gappy)) else "")
     path = d / "mem.fa"
     case.write(path)
     t = path.stat().st_mtime - 100
@@ -491,19 +581,26 @@ def memory_check(d, bs, n_buffers, width, seed, eol=b"\n"):
     rev_specs = [["F", "long", 2, n - 1, -1]]
     rev_want = hashlib.sha256(G.expected_fasta([("m", seq[1 : n - 1][::-1].translate(_COMP))], 60)).hexdigest()
 
-    def stream(label, fi, what, want, size=bs, judged=True):
+    def stream(label, fi, what, want, size=bs, judged=True, line_length=60):
         """what: a scaffold to write with write_scaffold, or None = write_assembly(fi.assembly)"""
         sink = HashSink()
         try:
             if what is None:
-                measured(label, lambda: FastaStream(sink, fi).write_assembly(fi.assembly), size, judged)
+                measured(label, lambda: FastaStream(sink, fi, line_length=line_length).write_assembly(fi.assembly), size, judged)
             else:
-                measured(label, lambda: FastaStream(sink, fi).write_scaffold(what), size, judged)
+                measured(label, lambda: FastaStream(sink, fi, line_length=line_length).write_scaffold(what), size, judged)
         except Exception as e:  # noqa: BLE001
             msgs.append(f"{label} raised {e!r}")
             return
         if sink.h.hexdigest() != want:
             msgs.append(f"{label}: the {sink.n} bytes written do not hash to the expected FASTA text")
+        # n_rows x buffer_size residues in one write() hold more than a buffer of one of the rows
+        n_rows = len(what.rows) if what is not None else max(len(sc.rows) for sc in fi.assembly.scaffolds)
+        if judged and sink.most > n_rows * size:
+            msgs.append(
+                f"{label}: one write() to the output carried {sink.most} residues (buffer_size {size}, output line length {line_length}, "
+                f"{n_rows} row{'s' if n_rows > 1 else ''} in the scaffold): the consumer collects more than buffer-size residues of one fragment or gap before it writes them"
+            )
 
     def same_as_direct(label, fi, idx, asm):
         if fi.index is None or fi.assembly is None:
@@ -604,6 +701,15 @@ def memory_check(d, bs, n_buffers, width, seed, eol=b"\n"):
                 fi = new_index(size)
                 fi.index = idx
                 stream(label if judged else "large buffer: " + label, fi, scaffold_from("m", specs), want, size, judged)
+        # the same rows, and a scaffold of all three, written in lines far longer than the buffer
+        mixed = [["F", "long", 2, n - 1, 1], ["G", n // 2, "scaffold"], ["F", "long", 2, n - 1, -1]]
+        for L in line_lengths:
+            how = "unwrapped output (line length 10**9)" if L >= ONE_LINE else f"output lines of {L}"
+            for label, specs in ([*jobs, ("streaming a scaffold of a long forward fragment, a long gap and a long reverse fragment", mixed)] if all_rows else [("streaming a scaffold of a long forward fragment, a long gap and a long reverse fragment", mixed)]):
+                want = hashlib.sha256(G.expected_fasta([("m", G.apply_rows(seqs, specs))], L)).hexdigest()
+                fi = new_index(bs)
+                fi.index = idx
+                stream(f"{label}, {how}", fi, scaffold_from("m", specs), want, bs, True, L)
     finally:
         for fi in opened:
             close_index(fi)
@@ -691,7 +797,10 @@ def pick(msgs, route):
 def replay(inp):
     with G.quiet_logging(), G.workdir() as d:
         if inp["kind"] == "memory":
-            msgs, _ = memory_check(d, inp["buffer_size"], inp["n_buffers"], inp["width"], inp["seed"], b"\r\n" if inp.get("eol") == "CRLF" else b"\n")
+            msgs, _ = memory_check(
+                d, inp["buffer_size"], inp["n_buffers"], inp["width"], inp["seed"], b"\r\n" if inp.get("eol") == "CRLF" else b"\n",
+                inp.get("line_lengths", ()), inp.get("all_rows", True),
+            )
             return pick(msgs, inp.get("route"))
         if inp["kind"] == "cli-memory":
             msgs, _ = cli_memory_check(d, inp["n_buffers"], inp["seed"])
@@ -717,8 +826,9 @@ def run(tier, seed, **opts):
         "width+-1, 2*width+-1, run/record length+-1, 250000; per (file, assembly) all those buffers for streaming; one "
         "evaluation = one (file, all buffers) index comparison or one (file, assembly, all buffers) stream comparison or "
         "one tracemalloc measurement of one route (index_fasta_file, FastaIndex.auto_load cold / stale / warm, run_indexing, "
-        "FastaStream over those indexes, pretext-to-asm in the thorough tier) on records hundreds of buffers long, wrapped at 60..100 and "
-        "unwrapped / long-line files; or one script of 2..6 calls on ONE FastaIndex object (several FastaStreams with different gap "
+        "FastaStream over those indexes - output lines of 60 and far longer than the buffer, up to unwrapped -, pretext-to-asm in the thorough tier) "
+        "on records hundreds of buffers long, wrapped at 60..100 and unwrapped / long-line files; every streamed case also: no single write() carries "
+        "more than buffer-size residues of one row; or one script of 2..6 calls on ONE FastaIndex object (several FastaStreams with different gap "
         "characters N n - X, line lengths, assemblies and buffer_size settings, in every order of a designed pool / random), each call "
         "compared with the model; non-trivial = distinct such case with at least 3 distinct buffer sizes and a record "
         "longer than the smallest buffer"
@@ -785,7 +895,6 @@ def run(tier, seed, **opts):
             shared(case, list(designed_scripts(scs_a, scs_b, 3, rng, 1500)))
         # resource check
         # (buffer, record length in buffers, line width, seed[, "CRLF"]); width 10**9 = every record on one line
-        ONE_LINE = 10**9
         mem_jobs = (
             [(2048, 220, 60, 1), (1000, 400, ONE_LINE, 7)]
             if quick
@@ -796,8 +905,9 @@ def run(tier, seed, **opts):
         peaks_seen = {}
         discr = {}
         for bs, nb, width, ms, *crlf in mem_jobs:
-            msgs, peaks = memory_check(d, bs, nb, width, ms, b"\r\n" if crlf else b"\n")
-            inp = {"kind": "memory", "buffer_size": bs, "n_buffers": nb, "width": width, "seed": ms, "eol": "CRLF" if crlf else "LF"}
+            lls = long_output_lines(bs, nb, quick)
+            msgs, peaks = memory_check(d, bs, nb, width, ms, b"\r\n" if crlf else b"\n", lls, not quick)
+            inp = {"kind": "memory", "buffer_size": bs, "n_buffers": nb, "width": width, "seed": ms, "eol": "CRLF" if crlf else "LF", "line_lengths": lls, "all_rows": not quick}
             width = min(width, bs * nb + 20)  # the longest line actually in the file
             for m in msgs:
                 col.fail(m, dict(inp, route=m.split(": ")[0]))
@@ -820,7 +930,8 @@ def run(tier, seed, **opts):
             "file; shared-index scripts: 1-2 random per random file, all 306 ordered pairs of 18 (buffer, gap character) settings on a designed file"
             + ("" if quick else " and 1500 random triples") + "; memory: " + "; ".join(f"{nb} buffers of {bs} (line {'whole record' if w == ONE_LINE else w})" for bs, nb, w, *_ in mem_jobs)
             + "".join(f"; pretext-to-asm on {nb} buffers of {DEFAULT_BUFFER}" for nb, _ in cli_jobs)
-            + "; limit 16 x buffer + 64 KiB (+ 8 x line while indexing)"
+            + "; streaming also with output lines far longer than the buffer (4 x the allowance, a third of / three times the scaffold, unwrapped; quick: one of them per file)"
+            + "; limit 16 x buffer + 64 KiB (+ 8 x line while indexing); no write() with more than buffer-size residues of one row"
         ),
         exhaustive=False,
         # measurements, not part of the deterministic result: vary by a few hundred bytes between runs
